@@ -421,7 +421,7 @@ theorem te_wf : wfHeader (bytesOfString "Transfer-Encoding", bytesOfString "chun
     without spaces, any header fields, a body of any bytes with a Content-Length or in chunks -
     followed by anything, is read back as exactly that request, and reading resumes right after it. -/
 theorem c03_request_enc (m : Msg) (hw : WfReq m) (rest : Bytes) :
-    parseRequest (encMsg m ++ rest) = some (parsedOf m, rest) := by
+    parseRequest (encMsgCore m ++ rest) = some (parsedOf m, rest) := by
   obtain ⟨hreq, ⟨hm32, hm13⟩, ⟨ht32, ht13⟩, hminor, hhs, hnf, hfr, hst⟩ := hw
   let ver := bytesOfString "HTTP/1." ++ dec m.minor
   have hver : versionMinor? ver = some m.minor := by
@@ -451,7 +451,7 @@ theorem c03_request_enc (m : Msg) (hw : WfReq m) (rest : Bytes) :
     · rcases hfr with hf | hf | ⟨hf, _⟩ <;> simp only [hf, List.mem_singleton, List.not_mem_nil] at hh
       · subst hh; exact cl_wf _
       · subst hh; exact te_wf
-  have hform : ∃ bodyBytes, encMsg m ++ rest = line ++ [13, 10] ++ (encHeaders allHs ++ crlf ++ (bodyBytes ++ rest)) ∧
+  have hform : ∃ bodyBytes, encMsgCore m ++ rest = line ++ [13, 10] ++ (encHeaders allHs ++ crlf ++ (bodyBytes ++ rest)) ∧
       parseBody (framingOf true 0 allHs) (bodyBytes ++ rest) = some (m.body, rest) := by
     have hstart : (if m.isRequest then m.method ++ [32] ++ m.target ++ bytesOfString " HTTP/1." ++ dec m.minor
         else bytesOfString "HTTP/1." ++ dec m.minor ++ [32] ++ dec m.status ++ [32] ++ m.reason) = line := by
@@ -461,7 +461,7 @@ theorem c03_request_enc (m : Msg) (hw : WfReq m) (rest : Bytes) :
     rcases hfr with hf | hf | ⟨hf, hbody⟩
     · refine ⟨m.body, ?_, ?_⟩
       · have hsplitStr : bytesOfString "Content-Length: " = bytesOfString "Content-Length" ++ bytesOfString ": " := by decide
-        simp only [encMsg, hstart, hf, allHs, parsedOf, encHeaders_snoc, hsplitStr]
+        simp only [encMsgCore, hstart, hf, allHs, parsedOf, encHeaders_snoc, hsplitStr]
         simp [encHeaders, crlf, List.append_assoc]
       · have hte : headerValue allHs "transfer-encoding" = none := by
           simp only [allHs, parsedOf, hf]
@@ -474,7 +474,7 @@ theorem c03_request_enc (m : Msg) (hw : WfReq m) (rest : Bytes) :
     · refine ⟨chunksOf (m.body.length + 1) m.body, ?_, ?_⟩
       · have hsplitStr : bytesOfString "Transfer-Encoding: chunked" =
             bytesOfString "Transfer-Encoding" ++ bytesOfString ": " ++ bytesOfString "chunked" := by decide
-        simp only [encMsg, hstart, hf, allHs, parsedOf, encHeaders_snoc, hsplitStr]
+        simp only [encMsgCore, hstart, hf, allHs, parsedOf, encHeaders_snoc, hsplitStr]
         simp [encHeaders, crlf, List.append_assoc]
       · have hte : headerValue allHs "transfer-encoding" = some (bytesOfString "chunked") := by
           simp only [allHs, parsedOf, hf]
@@ -484,7 +484,7 @@ theorem c03_request_enc (m : Msg) (hw : WfReq m) (rest : Bytes) :
         have hcl := chunks_len (m.body.length + 1) m.body (by omega)
         exact parseChunks_enc _ m.body (by omega) rest _ (by simp only [List.length_append]; omega)
     · refine ⟨[], ?_, ?_⟩
-      · simp only [encMsg, hstart, hf, allHs, parsedOf, List.append_nil]
+      · simp only [encMsgCore, hstart, hf, allHs, parsedOf, List.append_nil]
         simp [encHeaders, crlf, List.append_assoc]
       · have hh : allHs = m.headers := by simp [allHs, parsedOf, hf]
         simp only [hh, framingOf, Bool.not_true, Bool.false_and, Bool.false_eq_true, if_false, hte0, hcl0, Option.bind_none,
@@ -514,7 +514,7 @@ structure WfResp (m : Msg) (rest : Bytes) : Prop where
 /-- **Responses round-trip**: any status, reason phrase, header fields; a body of any bytes with a
     Content-Length, in chunks, or delimited by the end of the stream; none for 1xx / 204 / 304. -/
 theorem c03_response_enc (m : Msg) (rest : Bytes) (hw : WfResp m rest) :
-    parseResponse (encMsg m ++ rest) = some (parsedOf m, if m.framing = .close then [] else rest) := by
+    parseResponse (encMsgCore m ++ rest) = some (parsedOf m, if m.framing = .close then [] else rest) := by
   obtain ⟨hresp, hr13, hminor, hhs, hnf, hfr, ⟨hmeth, htarg⟩⟩ := hw
   let ver := bytesOfString "HTTP/1." ++ dec m.minor
   have hver : versionMinor? ver = some m.minor := by
@@ -552,17 +552,17 @@ theorem c03_response_enc (m : Msg) (rest : Bytes) (hw : WfResp m rest) :
     simp [hresp, line, ver, List.append_assoc]
   have hte0 := headerValue_none m.headers "transfer-encoding" (fun x hx => (hnf x hx).2)
   have hcl0 := headerValue_none m.headers "content-length" (fun x hx => (hnf x hx).1)
-  have hform : ∃ bodyBytes, encMsg m ++ rest = line ++ [13, 10] ++ (encHeaders allHs ++ crlf ++ (bodyBytes ++ rest)) ∧
+  have hform : ∃ bodyBytes, encMsgCore m ++ rest = line ++ [13, 10] ++ (encHeaders allHs ++ crlf ++ (bodyBytes ++ rest)) ∧
       parseBody (framingOf false m.status allHs) (bodyBytes ++ rest) = some (m.body, if m.framing = .close then [] else rest) := by
     rcases hfr with ⟨hnb, hf, hbody⟩ | ⟨hnb, hf | hf | ⟨hf, hrest⟩⟩
     · refine ⟨[], ?_, ?_⟩
-      · simp only [encMsg, hstart, hf, allHs, parsedOf, List.append_nil]
+      · simp only [encMsgCore, hstart, hf, allHs, parsedOf, List.append_nil]
         simp [encHeaders, crlf, List.append_assoc]
       · have hnb' : (m.status / 100 == 1 || m.status == 204 || m.status == 304) = true := hnb
         simp [framingOf, hnb', parseBody, hbody, hf]
     · refine ⟨m.body, ?_, ?_⟩
       · have hsplitStr : bytesOfString "Content-Length: " = bytesOfString "Content-Length" ++ bytesOfString ": " := by decide
-        simp only [encMsg, hstart, hf, allHs, parsedOf, encHeaders_snoc, hsplitStr]
+        simp only [encMsgCore, hstart, hf, allHs, parsedOf, encHeaders_snoc, hsplitStr]
         simp [encHeaders, crlf, List.append_assoc]
       · have hte : headerValue allHs "transfer-encoding" = none := by
           simp only [allHs, parsedOf, hf]
@@ -576,7 +576,7 @@ theorem c03_response_enc (m : Msg) (rest : Bytes) (hw : WfResp m rest) :
     · refine ⟨chunksOf (m.body.length + 1) m.body, ?_, ?_⟩
       · have hsplitStr : bytesOfString "Transfer-Encoding: chunked" =
             bytesOfString "Transfer-Encoding" ++ bytesOfString ": " ++ bytesOfString "chunked" := by decide
-        simp only [encMsg, hstart, hf, allHs, parsedOf, encHeaders_snoc, hsplitStr]
+        simp only [encMsgCore, hstart, hf, allHs, parsedOf, encHeaders_snoc, hsplitStr]
         simp [encHeaders, crlf, List.append_assoc]
       · have hte : headerValue allHs "transfer-encoding" = some (bytesOfString "chunked") := by
           simp only [allHs, parsedOf, hf]
@@ -589,7 +589,7 @@ theorem c03_response_enc (m : Msg) (rest : Bytes) (hw : WfResp m rest) :
           ((chunksOf (m.body.length + 1) m.body ++ rest).length + 1) (by simp only [List.length_append]; omega)
         simpa using this
     · refine ⟨m.body, ?_, ?_⟩
-      · simp only [encMsg, hstart, hf, allHs, parsedOf, List.append_nil]
+      · simp only [encMsgCore, hstart, hf, allHs, parsedOf, List.append_nil]
         simp [encHeaders, crlf, List.append_assoc]
       · have hh : allHs = m.headers := by simp [allHs, parsedOf, hf]
         have hnb' : (m.status / 100 == 1 || m.status == 204 || m.status == 304) = false := hnb
@@ -604,14 +604,14 @@ theorem c03_response_enc (m : Msg) (rest : Bytes) (hw : WfResp m rest) :
   simp [parsedOf, hresp, hmeth, htarg, allHs]
 
 /-- Non-vacuity: a chunked POST with a binary body and two header fields is well-formed. -/
-theorem encMsg_ne_nil (m : Msg) : (encMsg m).isEmpty = false := by
-  unfold encMsg
+theorem encMsg_ne_nil (m : Msg) : (encMsgCore m).isEmpty = false := by
+  unfold encMsgCore
   cases hf : m.framing <;> simp [crlf]
 
 /-- **A whole client half**: every pipelined sequence of well-formed requests is read back as
     exactly those requests, in order - the k-th request parsed is the k-th request sent. -/
 theorem c03_client_half : ∀ (ms : List Msg), (∀ m ∈ ms, WfReq m) → ∀ fuel, ms.length < fuel →
-    parseAll true fuel ((ms.map encMsg).flatten) = ms.map parsedOf
+    parseAll true fuel ((ms.map encMsgCore).flatten) = ms.map parsedOf
   | [], _, fuel, hf => by
     cases fuel with
     | zero => omega
@@ -620,11 +620,11 @@ theorem c03_client_half : ∀ (ms : List Msg), (∀ m ∈ ms, WfReq m) → ∀ f
     cases fuel with
     | zero => omega
     | succ f =>
-      have h1 := c03_request_enc m (hw m (by simp)) ((ms.map encMsg).flatten)
+      have h1 := c03_request_enc m (hw m (by simp)) ((ms.map encMsgCore).flatten)
       have ih := c03_client_half ms (fun x hx => hw x (by simp [hx])) f (by simp only [List.length_cons] at hf; omega)
-      have hne : ((encMsg m) ++ (ms.map encMsg).flatten).isEmpty = false := by
+      have hne : ((encMsgCore m) ++ (ms.map encMsgCore).flatten).isEmpty = false := by
         have := encMsg_ne_nil m
-        cases h : encMsg m <;> simp_all
+        cases h : encMsgCore m <;> simp_all
       simp only [List.map_cons, List.flatten_cons, parseAll, hne, Bool.false_eq_true, if_false, if_true, h1, ih]
 
 def exReq : Msg :=
